@@ -32,7 +32,7 @@ META = {
                    "split on all strings over {a, space, \", ', \\} up to a length bound, all Unicode whitespace, and random "
                    "longer strings; quote() is tied to its Python transcription the same way."),
     "level_note": ("Trusted: Coq kernel, vm_compute, the hand model's correspondence (bounded: exhaustive to length 6/7), "
-                   "the whitespace table is_ws = Py_UNICODE_ISSPACE (checked on every code point in the thorough tier)."),
+                   "the whitespace table is_ws = Py_UNICODE_ISSPACE (checked on every code point < 0x3100 / < 0x30000 and a sample above)."),
     "design_ref": "DESIGN.md §5 C50",
     "trusted_base": ["hand model coq/Model/CmdLine.v of breezy/cmdline.py",
                      "correspondence harness harness/props/c50.py (incl. the Python transcription of quote)"],
@@ -117,46 +117,52 @@ def _items(rng, tier):
     quick = tier == "quick"
     # 1. exhaustive raw strings
     for sq in (True, False):
-        for s in _strings(6 if quick else 7):
+        for s in _strings(6 if quick or not sq else 7):
             yield {"kind": "raw", "sq": sq, "s": s}
+    if not quick:   # flag off: "'" is an ordinary character like "a"; length 7 without it
+        for t in itertools.product([97, 32, 34, 92], repeat=7):
+            yield {"kind": "raw", "sq": False, "s": list(t)}
     # 2. exhaustive round trips: single args, pairs, triples
     for sq in (True, False):
-        for a in _strings(5 if quick else 7):
+        for a in _strings(5 if quick else 6):
             yield {"kind": "rt", "sq": sq, "args": [a]}
-        short = list(_strings(2 if quick else 3))
-        for a in short:
+        short = list(_strings(2))
+        for a in (short if quick else list(_strings(3))):
             for b in short:
                 yield {"kind": "rt", "sq": sq, "args": [a, b]}
         one = list(_strings(1))
         for t in itertools.product(one, repeat=3):
             yield {"kind": "rt", "sq": sq, "args": list(t)}
-    # 3. the whitespace table: every code point of a range, 32 per case, as  a<c>a<c>...a
+    # 3. the whitespace table: 64 consecutive code points per item, as  a<c0><c1>...<c63>a
+    #    (every misclassified code point moves a token boundary)
     def ws_case(cs, sq):
-        s = [97]
-        for c in cs:
-            s += [c, 97]
-        return {"kind": "raw", "sq": sq, "s": s}
-    top = 0x3100 if quick else 0x110000
-    for lo in range(0, top, 32):
-        yield ws_case(range(lo, min(lo + 32, top)), (lo // 32) % 2 == 0)
+        return {"kind": "raw", "sq": sq, "s": [97] + [c for c in cs if c not in (DQ, SQ, BS)] + [97]}
+    top = 0x3100 if quick else 0x30000
+    for lo in range(0, top, 64):
+        yield ws_case(range(lo, lo + 64), (lo // 64) % 2 == 0)
     if quick:
         for _ in range(100):
-            yield ws_case([rng.randrange(0x3100, 0x110000) for _ in range(32)], rng.random() < 0.5)
+            lo = rng.randrange(0x3100, 0x110000 - 64)
+            yield ws_case(range(lo, lo + 64), rng.random() < 0.5)
+    else:                              # above plane 2: one code point in 16, random phase per block
+        for lo in range(0x30000, 0x110000, 1024):
+            ph = rng.randrange(16)
+            yield ws_case(range(lo + ph, lo + 1024, 16), (lo // 1024) % 2 == 0)
     for c in WS:                       # whitespace inside quotes / after backslashes / as an argument
         for sq in (True, False):
             yield {"kind": "raw", "sq": sq, "s": [34, 97, c, 97, 34, c, 92, c, 97, 92, 92, c, 39, c, 39]}
             yield {"kind": "rt", "sq": sq, "args": [[c], [97, c, 92], [92, c]]}
     # 4. random longer strings over a wider alphabet
     wide = ALPHA * 4 + [98, 9, 10, 160, 0x3000, 0xe9, 0x1f600, 0xd800, 0, 0x2028, 47, 42]
-    for _ in range(1500 if quick else 20000):
+    for _ in range(1500 if quick else 10000):
         n = rng.randint(7, 40)
         yield {"kind": "raw", "sq": rng.random() < 0.5, "s": [rng.choice(wide) for _ in range(n)]}
-    for _ in range(1000 if quick else 15000):
+    for _ in range(1000 if quick else 8000):
         k = rng.randint(0, 5)
         args = [[rng.choice(wide) for _ in range(rng.randint(0, 10))] for _ in range(k)]
         yield {"kind": "rt", "sq": rng.random() < 0.5, "args": args}
     # backslash-heavy
-    for _ in range(500 if quick else 5000):
+    for _ in range(500 if quick else 2500):
         n = rng.randint(4, 30)
         yield {"kind": "raw", "sq": rng.random() < 0.5, "s": [rng.choice([92, 92, 92, 34, 39, 32, 97]) for _ in range(n)]}
 
@@ -183,17 +189,17 @@ def _unbatch(inp):
 
 
 def _batches(items, size):
-    cur = None
+    """Group items by (kind, flag) into batches of at most [size] items."""
+    open_ = {}
     for it in items:
-        x = it[KEY[it["kind"]]]
-        if cur is not None and (cur["kind"], cur["sq"]) == (it["kind"], it["sq"]) and len(cur["items"]) < size:
-            cur["items"].append(x)
-            continue
-        if cur is not None:
-            yield cur
-        cur = {"kind": it["kind"], "sq": it["sq"], "items": [x]}
-    if cur is not None:
-        yield cur
+        k = (it["kind"], it["sq"])
+        b = open_.setdefault(k, {"kind": it["kind"], "sq": it["sq"], "items": []})
+        b["items"].append(it[KEY[it["kind"]]])
+        if len(b["items"]) >= size:
+            yield b
+            del open_[k]
+    for k in sorted(open_):
+        yield open_[k]
 
 
 def corpus():
